@@ -1127,6 +1127,45 @@ def check_readxml(ctx, tu):
             return
     ctx.ok(R3, inst + ': buffer', 'std::vector<char> %s(numBytes + 1, 0) built in %s' % (bufvar.get('name'), builder['q'].replace('rkcommon::', '')),
            tu.loc(bufvar))
+    # the size comes from ftell(): -1 for a file that cannot be sought (pipe, terminal); it must be rejected before it sizes the buffer
+    sized = tu.node(sizevar)
+    from_ftell = sized is not None and any(x.get('kind') == 'CallExpr' and tu.sd(x).get('q', '').split('::')[-1] in ('ftell', 'ftello', '_ftelli64')
+                                           for x in tu.walk(sized))
+    if from_ftell:
+        tests = []
+        for x in tu.walk(tu.body(builder)):
+            if x.get('kind') == 'BinaryOperator' and x.get('opcode') in ('<', '<=', '==', '>', '>=', '!='):
+                l, r = tu.kids(x)
+                for a, b, op in ((l, r, x['opcode']), (r, l, {'<': '>', '>': '<', '<=': '>=', '>=': '<='}.get(x['opcode'], x['opcode']))):
+                    if eng0.decl_of(a)[0] == sizevar and eng0.const_of(b) is not None:
+                        tests.append((x, op, eng0.const_of(b)))
+        rejecting = None
+        for x, op, c in tests:
+            # `numBytes < 0`, `numBytes <= -1`, `numBytes == -1` guarding a throw / return (or the complementary test guarding the rest)
+            neg_true = (op == '<' and c == 0) or (op == '<=' and c == -1) or (op == '==' and c == -1)
+            neg_false = (op == '>=' and c == 0) or (op == '>' and c == -1) or (op == '!=' and c == -1)
+            cur = tu.par(x)
+            while cur is not None and cur.get('kind') not in ('IfStmt', 'FunctionDecl', 'CXXMethodDecl'):
+                cur = tu.par(cur)
+            if cur is None or cur.get('kind') != 'IfStmt':
+                continue
+            ks = tu.kids(cur)
+            then_exits = len(ks) > 1 and any(y.get('kind') in ('CXXThrowExpr', 'ReturnStmt') for y in tu.walk(ks[1]))
+            else_exits = len(ks) > 2 and any(y.get('kind') in ('CXXThrowExpr', 'ReturnStmt') for y in tu.walk(ks[2]))
+            buf_inside_then = len(ks) > 1 and any(y is bufvar for y in tu.walk(ks[1]))
+            if (neg_true and then_exits) or (neg_false and (else_exits or buf_inside_then)):
+                rejecting = cur
+                break
+        if rejecting is not None:
+            ctx.ok(R3, inst + ': size', 'a negative ftell() result is rejected before it sizes the buffer', tu.loc(rejecting))
+        elif tests:
+            ctx.undecided(R3, inst + ': size', 'the ftell() result is compared (`%s`) but not in a recognised rejecting form' % tu.show(tests[0][0])[:50],
+                          tu.loc(tests[0][0]))
+        else:
+            ctx.violation(R3, inst + ': size', 'the result of ftell() sizes the buffer and bounds fread without being tested: for a file that cannot '
+                          'be sought (pipe, terminal, process substitution) it is -1, the buffer gets numBytes + 1 == 0 bytes, fread is asked for '
+                          'SIZE_MAX bytes and the parser is entered on a null pointer', tu.loc(sized),
+                          key='%s|%s|readXML|size-unchecked' % (R3, XML_FILE))
     nread = nparse = 0
     for fn in (builder, f) if builder['id'] != f['id'] else (f,):
         for b, i, n in tu.cfg(fn).stmts():
